@@ -413,10 +413,38 @@ def run(ctx):
                                    desc="no reachable panic/overflow/bounds/unwrap/precondition failure in view layout and rendering")
 
 
+_VT = {}
+
+
+def _view_types(prog):
+    if id(prog) not in _VT:
+        _VT[id(prog)] = {re.sub(r"<.*$", "", i["self"]) for i in prog.impls if (i.get("trait") or "").endswith("view::View") and i["self"].startswith(("view::", "glyph::"))}
+    return _VT[id(prog)]
+
+
+def _user_param(body, operand):
+    """does the operand read a numeric field of the view itself (`self.margins.top`, `self.size.width`, an Align offset ...)?
+    Such values are chosen by whoever built or deserialised the view: SIZE-BOUND (a statement about sizes the layout protocol produces)
+    does not cover them — C19 quantifies over JSON documents with huge numbers."""
+    try:
+        e = expr(body, operand)
+    except Exception:
+        return False
+    if re.search(r"(^|[(, ])arg1\.[a-z_]+(\.[a-z_0-9]+)*($|[), ])", e) and body.kind == "AssocFn" and \
+            ((body.impl_trait or "").endswith("view::View") or re.sub(r"<.*$", "", body.impl_self or "") in _view_types(body.prog)):
+        return True
+    # the size of a cell is the size its glyph declares (Glyph::size is a constructor / JSON parameter)
+    return bool(re.search(r"Cell::size\(|Glyph::size\(", e))
+
+
 def _usize_op(body, o):
     if o.term["k"] == "call":
+        if any(_user_param(body, a) for a in o.term["args"]):
+            return False
         return all(re.sub(r"^&('\w+ )?", "", t) == "usize" for t in o.term["arg_tys"])
     m = o.term["msg"]
+    if any(_user_param(body, m[k]) for k in ("a", "b") if isinstance(m.get(k), dict)):
+        return False
     for key in ("a", "b"):
         op = m.get(key)
         if op and op["k"] == "const":
